@@ -209,11 +209,7 @@ func (m *Model) Reset() {
 // Match evaluates a filter spec on a model entity. The second result reports
 // "don't care": a relation filter applied to an entity without relation component.
 func (m *Model) Match(f *FSpec, me *MEnt) (match bool, dontCare bool) {
-	set := make(map[int]bool, len(me.Comps))
-	for id := range me.Comps {
-		set[id] = true
-	}
-	if !f.EvalSet(set) {
+	if !f.Eval(func(i int) bool { _, ok := me.Comps[i]; return ok }, len(me.Comps)) {
 		return false, false
 	}
 	if f.K == "rel" {
